@@ -35,8 +35,13 @@ OpProbes ==
          : e \in { Bin("and", V("t"), V("f")), Bin("or", V("f"), V("t")), Not(V("t")), Not(Bin("and", V("t"), V("f"))),
                    Bin("and", Not(V("f")), V("t")), Bin("or", Bin("and", V("t"), V("f")), V("t")), Bin("and", V("t"), Bin("or", V("f"), V("f"))),
                    Bin("or", Not(V("t")), Not(V("f"))) } }
-  \cup { Probe("strings", <<>>, <<Def("s", TRUE, "Str", StrL("ab")), DI("n", 5)>>, <<P(e)>>, FALSE)
-         : e \in { Bin("+", V("s"), StrL("cd")), FStr(<<T("n is "), V("n"), T("!")>>), FStr(<<V("s"), V("s")>>), Bin("+", FStr(<<T("x"), V("n")>>), V("s")) } }
+  \cup { Probe("strings", <<Fun("twice_s", <<Param("w", "Str", Absent)>>, "Str", <<>>, <<Expr(Bin("+", V("w"), V("w")))>>)>>, <<Def("s", TRUE, "Str", StrL("ab")), DI("n", 5)>>, <<P(e)>>, FALSE)
+         : e \in { Bin("+", V("s"), StrL("cd")), FStr(<<T("n is "), V("n"), T("!")>>), FStr(<<V("s"), V("s")>>), Bin("+", FStr(<<T("x"), V("n")>>), V("s")),
+                   \* interpolated EXPRESSIONS: operators whose spelling differs between the two languages, a string literal inside, a call
+                   FStr(<<T("p="), Bin("^", V("n"), I(2)), T(" m="), Bin("mod", V("n"), I(3)), T(" d="), Bin("//", V("n"), I(2))>>),
+                   FStr(<<T("e="), Bin("=", V("n"), I(5)), T(" ne="), Not(Bin("=", V("n"), I(5))), T(" a="), Bin("and", Bin(">", V("n"), I(1)), Bin("<", V("n"), I(3)))>>),
+                   FStr(<<T("s="), Bin("+", V("s"), T("z")), T(" c="), Call("twice_s", <<V("s")>>), T(".")>>),
+                   FStr(<<T("grouping "), Bin("-", V("n"), Bin("-", V("n"), I(1)))>>) } }
   \cup { Probe("ifexpr", <<>>, <<DI("a", p)>>, <<Def("z", TRUE, "Str", IfE(Bin(">", V("a"), I(3)), StrL("big"), StrL("small"))), P(V("z")),
                                                  Def("w", TRUE, "Int", IfE(Bin("=", V("a"), I(3)), I(1), IfE(Bin("<", V("a"), I(3)), I(2), I(3)))), P(V("w"))>>, FALSE) : p \in {1, 3, 5} }
   \* the block form of the conditional as right-hand side of a definition (typed, untyped, tuple of targets)
@@ -47,6 +52,17 @@ OpProbes ==
   \cup { Probe("default", <<>>, <<Def("n", TRUE, "Int?", e), DI("d", 7)>>, <<Def("w", TRUE, "Int", QDef(V("n"), V("d"))), P(V("w"))>>, FALSE) : e \in {NoneL, I(4)} }
   \cup { Probe("collections", <<>>, <<Def("l", TRUE, "", ListL(<<I(4), I(5), I(6)>>))>>,
                <<P(Index(V("l"), I(1))), P(V("l")), DefTup(<<"p", "q">>, TRUE, TupL(<<I(1), StrL("s")>>)), P(V("q")), P(V("p"))>>, FALSE) }
+
+  \* list builders: element expression, iterable (list / range), zero to two conditions (an `or` among several is one unit)
+  \cup { Probe("builder", <<>>, <<Def("l", TRUE, "", ListL(<<I(1), I(2), I(3), I(4)>>)), DI("k", 2)>>, <<Def("m", TRUE, "List[Int]", b), P(V("m"))>>, FALSE)
+         : b \in { ListB(Bin("*", V("x"), I(2)), "x", V("l"), <<>>),
+                   ListB(Bin("+", V("x"), V("k")), "x", V("l"), <<Bin(">", V("x"), I(1))>>),
+                   ListB(V("x"), "x", V("l"), <<Bin(">", V("x"), I(1)), Bin("<", V("x"), I(4))>>),
+                   ListB(V("x"), "x", V("l"), <<Bin("or", Bin(">", V("x"), I(3)), Bin("<", V("x"), I(2))), Bin(">", V("x"), I(0))>>),
+                   ListB(V("x"), "x", V("l"), <<Bin("or", Bin(">", V("x"), I(3)), Bin("<", V("x"), I(2)))>>),
+                   ListB(Bin("^", V("x"), I(2)), "x", Range(I(0), I(3), TRUE, Absent), <<>>),
+                   ListB(Bin("-", V("x"), Bin("-", V("k"), I(1))), "x", Range(I(5), I(0), FALSE, Neg(I(2))), <<Bin("!=", V("x"), I(3))>>),
+                   ListB(IfE(Bin(">", V("x"), I(2)), I(1), I(0)), "x", V("l"), <<>>) } }
 
 ----------------------------------------------------------------------------------------
 RangeCases == { <<0, 3, 0>>, <<1, 4, 0>>, <<0, 6, 2>>, <<0, 7, 3>>, <<5, 0, -1>>, <<6, 0, -2>>, <<3, 3, 0>>, <<4, 2, 0>>, <<2, 2, -1>> }   \* step 0 = absent
